@@ -21,6 +21,7 @@ package pmath
 //@   ensures ceil: implies(n > 2, result >= n && pow2(result) && result>>1 < n)
 //@ func FloorToPowerOfTwo
 //@   mode bv
+//@   pure
 //@   requires n >= 0
 //@   ensures small: implies(n <= 2, result == n)
 //@   ensures floor: implies(n > 2, result <= n && pow2(result) && n>>1 < result)
@@ -33,3 +34,13 @@ package pmath
 //@ func Min
 //@   mode bv
 //@   ensures result <= a && result <= b && (result == a || result == b)
+
+// Consistency of the size-class arithmetic up to the platform limit (2^62).
+//@ lemma floor_le_ceil(n int) implies(0 <= n && n <= maxintHeadBit, FloorToPowerOfTwo(n) <= n && n <= CeilToPowerOfTwo(n))
+//@   mode bv
+//@ lemma ceil_fixpoint(n int) implies(1 <= n && n <= maxintHeadBit, (CeilToPowerOfTwo(n) == n) == pow2(n))
+//@   mode bv
+//@ lemma ceil_of_floor(n int) implies(0 <= n && n <= maxintHeadBit, CeilToPowerOfTwo(FloorToPowerOfTwo(n)) == FloorToPowerOfTwo(n))
+//@   mode bv
+//@ lemma ceil_monotone(a int, b int) implies(0 <= a && a <= b && b <= maxintHeadBit, CeilToPowerOfTwo(a) <= CeilToPowerOfTwo(b))
+//@   mode bv
